@@ -9,7 +9,9 @@ import CifModel.Model.StoreStep
   handles: their rows are gone, cif.h:1872); "behavior is undefined if the underlying loop is accessed (even just for reading) other
   than via the iterator" while an iterator is open, other modifications of the same CIF made meanwhile may or may not survive, and
   users are advised "to minimize non-iterator operations performed while any iterator is active on the same target CIF" (cif.h:1999)
-  — here, conservatively: while an iterator is open on a CIF, only that iterator's own calls work on that CIF.
+  — here, conservatively: while an iterator is open on a CIF, only that iterator's own calls work on that CIF, with one exception:
+  a further cif_loop_get_packets on that CIF is in contract — it is refused (one iterator at a time per CIF) and must leave the
+  open iterator and its transaction intact (`WOk.itOpenBusy`; seeded change C06_6).
   An op that is not executed (dead handle: the harness skips it, `rc = none`) calls nothing and is in contract.
 -/
 namespace CifModel.Store
@@ -31,6 +33,8 @@ def LH.validB (l : LH) (d : Db) : Bool :=
 def okC (w : World) (c : Nat) : Bool := match w.liveC c with | none => true | some _ => !w.cifBusy c
 def okH (w : World) (h : Nat) : Bool := match w.liveH h with | none => true | some (e, s) => !w.cifBusy e.cif && e.h.validB s.db
 def okL (w : World) (l : Nat) : Bool := match w.liveL l with | none => true | some (e, s) => !w.cifBusy e.cif && e.h.validB s.db
+/-- cif_loop_get_packets: through a valid handle, or on a CIF that has an open iterator (then it is refused) -/
+def okLOpen (w : World) (l : Nat) : Bool := match w.liveL l with | none => true | some (e, s) => w.cifBusy e.cif || e.h.validB s.db
 
 /-- a packet is a map: no key twice -/
 def keysDistinct : List (Str × V) → Bool
@@ -42,7 +46,8 @@ def inContract (w : World) : Op → Bool
   | .cifDel c | .mkBlock c _ | .getBlock c _ | .blocks c => okC w c
   | .mkFrame h _ | .getFrame h _ | .frames h | .cdestroy h | .code h | .isBlock h | .mkLoop h _ _ | .catLoop h _
   | .itemLoop h _ | .loops h | .prune h | .getVal h _ | .setVal h _ _ | .rmItem h _ => okH w h
-  | .ldestroy l | .getCat l | .setCat l _ | .names l | .addItem l _ _ | .itOpen l => okL w l
+  | .ldestroy l | .getCat l | .setCat l _ | .names l | .addItem l _ _ => okL w l
+  | .itOpen l => okLOpen w l
   | .addPkt l p => okL w l && keysDistinct p
   | .itNext _ | .itUpd _ _ | .itRem _ | .itClose _ | .itAbort _ => true
 
